@@ -192,4 +192,22 @@ theorem parseOpAt_nil (term : Terminator) (k : Nat) : parseOpAt k term [] = none
   split <;> simp [parseOp3, parseOp4, parseOp5, parseOp6, parseOp7, parseOp8, parseOp9, parseOp10,
         parseOp11, parseOp12, parseOp14, parseOp15, firstArm, matchPrefix]
 
+/-! ## Literals: precedence (e7611e2) -/
+
+theorem needParen_top_lit (l : Lit) : needParen (litPrec l) topPrec topSide = false := by
+  unfold litPrec; split <;> decide
+
+/-- a literal that prints as one token reading back as itself is not negative -/
+theorem litOk_not_negative (l : Lit) (h : LitOk l = true) : litNegative l = false := by
+  obtain ⟨kind, neg, mag⟩ := l
+  cases neg with
+  | false => simp [litNegative]
+  | true =>
+    cases kind <;> simp [LitOk, litPieces, floatPieces, litNegative, negLiteralKinds] at h ⊢ <;>
+      (split at h <;> simp_all) <;>
+      (rename_i heq; split at heq <;> simp [minusPiece] at heq)
+
+theorem litPrec_of_ok (l : Lit) (h : LitOk l = true) : litPrec l = precLiteral := by
+  simp [litPrec, litOk_not_negative l h]
+
 end RsslVerif.Lemmas.FmtParseTables
